@@ -82,6 +82,15 @@ def run(ctx):
         key = res.split()[0] + ":" + res.split()[1] if res.startswith("err") else "ok"
         outcome[key] = outcome.get(key, 0) + 1
         if dt > 2.0 and len(data) <= 4096:
+            # a stall of the machine is not a slow decode: measure again, keep the fastest
+            for _ in range(3):
+                t1 = time.perf_counter()
+                try:
+                    rd(io.BytesIO(data))
+                except Exception:  # noqa: BLE001
+                    pass
+                dt = min(dt, time.perf_counter() - t1)
+        if dt > 2.0 and len(data) <= 4096:
             slow += 1
             fails.append({"what": f"decode took {dt:.1f}s on {len(data)} bytes", "class": cl.keys[i], "bytes": data.hex()})
         if res.startswith("err internal"):
